@@ -727,6 +727,14 @@ func (e *Env) callExpr(n *ECall) Val {
 				"(= (select (kv_has (select (w_kv " + w1 + ") qs!s)) qs!k) (select (kv_has (select (w_kv " + w0 + ") qs!s)) qs!k)) " +
 				"(= (select (kv_val (select (w_kv " + w1 + ") qs!s)) qs!k) (select (kv_val (select (w_kv " + w0 + ") qs!s)) qs!k)))) " +
 				":pattern ((select (kv_has (select (w_kv " + w1 + ") qs!s)) qs!k)) :pattern ((select (kv_val (select (w_kv " + w1 + ") qs!s)) qs!k)))))")
+		case "onlyKeyChanged":
+			// onlyKeyChanged(w0, w1, k): world w1 differs from w0 at most at key k (of any module store)
+			w0, w1, k := argv(0).T, argv(1).T, str(2)
+			return boolVal("(and (= (w_led " + w1 + ") (w_led " + w0 + ")) (= (w_aux " + w1 + ") (w_aux " + w0 + ")) " +
+				"(forall ((qs!s Int) (qs!k String)) (! (=> (not (= qs!k " + k + ")) (and " +
+				"(= (select (kv_has (select (w_kv " + w1 + ") qs!s)) qs!k) (select (kv_has (select (w_kv " + w0 + ") qs!s)) qs!k)) " +
+				"(= (select (kv_val (select (w_kv " + w1 + ") qs!s)) qs!k) (select (kv_val (select (w_kv " + w0 + ") qs!s)) qs!k)))) " +
+				":pattern ((select (kv_has (select (w_kv " + w1 + ") qs!s)) qs!k)) :pattern ((select (kv_val (select (w_kv " + w1 + ") qs!s)) qs!k)))))")
 		case "kvOf":
 			// kvOf(w, svc): the key-value store of service svc in world w
 			return Val{S: "KV", T: "(select (w_kv " + argv(0).T + ") " + svcID(argv(1)) + ")"}
